@@ -873,6 +873,8 @@ def build_stack(base_kind, desc, stack, super_part):
         sim = _nested_sim_class()(desc)
     elif base_kind == 3:
         sim = _battle_sim(random.Random(desc[0]))      # the packaged TeamBattleSim, as its drivers build it
+    elif base_kind == 4:
+        sim = ex_comms(random.Random(desc[0]))         # the comms_blocking example (float32 Boxes)
     else:
         sim = build_grid_sim(desc)
     for w in stack:
@@ -977,10 +979,14 @@ def gen_stack(tier, rng):
     while made < target and guard < target * 20:
         guard += 1
         stack = stacks[guard % len(stacks)] if guard <= 3 * len(stacks) else rng.choice(stacks)
-        base_kind = rng.choice([0, 1, 1, 1, 2, 2, 2, 3])
+        base_kind = rng.choice([0, 1, 1, 1, 2, 2, 2, 3, 4])
         if base_kind == 3:
             if 1 in stack:
                 continue                     # view range 3: the ravelled spaces exceed 2^62 points
+            desc = [rng.getrandbits(16)]
+        elif base_kind == 4:
+            if 1 in stack:
+                continue                     # float message channels cannot be ravelled
             desc = [rng.getrandbits(16)]
         elif base_kind == 0:
             end = rng.choice([4, 6, 10])
@@ -1006,7 +1012,7 @@ def gen_stack(tier, rng):
                rng.randint(8, 25)]
 
 
-BASES = {0: "MultiCorridor", 1: "NestedSpacesSim", 2: "grid", 3: "TeamBattleSim"}
+BASES = {0: "MultiCorridor", 1: "NestedSpacesSim", 2: "grid", 3: "TeamBattleSim", 4: "comms_blocking"}
 
 
 def classify_stack(inp, out):
